@@ -26,7 +26,7 @@ def run_alphabet(rep, alphabet, depth, d, simulate=None, seed=None):
     out = os.path.join(d, "out_%s.ndjson" % alphabet)
     nv.write_ndjson(inp, [{"id": i, "prelude": meta["prelude"], "modules": meta["modules"], "probes": meta["probes"],
                            "steps": [s["text"] for s in c["steps"]]} for i, c in enumerate(cases)])
-    nv.harness(["session-c07", "--cases", inp, "--out", out, "--dir", d])
+    nv.harness("nv-session", ["session-c07", "--cases", inp, "--out", out, "--dir", d])
     results = nv.read_ndjson_text(open(out).read())
     nontrivial = 0
     for c, r in zip(cases, results):
@@ -65,7 +65,7 @@ def run_alphabet(rep, alphabet, depth, d, simulate=None, seed=None):
 
 def run(tier, seed):
     rep = nv.Report(PROP, tier, seed, "model_checking")
-    nv.build_harness()
+    nv.build_harness(["nv-session"])
     d = nv.scratch("c07")
     if tier == "quick":
         plan = [("small", 2, None), ("okonly", 3, None), ("small", 10, 200)]
